@@ -15,7 +15,7 @@ RULE = ("a case is a history of 2-9 response/request events driven through one r
         "with/without/with extra dots, foreign Domain, Path variants, Expires/Max-Age past/future/garbage, bare "
         "Domain/Path/Max-Age tokens), then requests aimed at the stored keys (same/related/unrelated host, same/other "
         "port, path = cookie path, segment below it, sibling with the same string prefix, query variants); 30%: the "
-        "same with byte-level mutations of hosts, domains and paths; thorough adds every (responding host, Domain, request host) over 14x16x14 and every (cookie path, request path) over 13x13 dictionaries. Non-trivial = at least one cookie was stored "
+        "same with byte-level mutations of hosts, domains and paths; every tier adds direct calls of domain_match on every (host, Domain) of a label algebra (the domain embedded as prefix/suffix/infix of longer hosts at and off label boundaries: X.D, XD, D.X, X.D.Y, XD.Y, X.D.YD, ..., dots, case, IPs) and of the path test on all pairs of a path dictionary, plus 16% random/mutated such calls; requests of histories also use the embedded hosts; thorough adds every (responding host, Domain, request host) over 14x16x14 and every (cookie path, request path) over 13x13 dictionaries. Non-trivial = at least one cookie was stored "
         "and at least one request was made while the jar was non-empty; distinct by canonical JSON.")
 TRUSTED = ["Coq 8.16.1 kernel (coqc), vm_compute for case evaluation",
            "harness/props/C54.py generator, observation of the addon (jar snapshots, Cookie header) and Corr/C54.v",
@@ -46,7 +46,16 @@ def related_hosts(rng, base):
     sub = rng.choice(["www", "a", "a.b", "x"])
     return [base, sub + "." + base, "a." + sub + "." + base, base + ".evil.org", sub + "." + base + ".evil.org",
             "x" + base, base + "x", base.upper(), base + ".", "." + base, base.split(".", 1)[-1], "evil.org",
-            base + ".10.1", sub + "." + base + "\n", "1.2.3.4", "3.4", "::1", "::ffff:1.2.3.4", base + ":8080"]
+            base + ".10.1", sub + "." + base + "\n", "1.2.3.4", "3.4", "::1", "::ffff:1.2.3.4", base + ":8080"] \
+        + embeddings(base, sub, rng.choice(["not", "x", "evil.org", "my"]))
+
+
+def embeddings(d, x, y):
+    """label algebra: the domain d embedded as prefix / suffix / infix of longer hosts, at and off label
+    boundaries (X.D, XD, D.X, X.D.Y, XD.Y, X.D.YD, D.YD, X.D.Y.D, YD.X.D ...)"""
+    return [x + "." + d, x + d, d + "." + y, x + "." + d + "." + y, x + d + "." + y, x + "." + d + "." + y + d,
+            d + "." + y + d, x + "." + d + "." + y + "." + d, y + d + "." + x + "." + d, d + "." + d, x + "." + d + y,
+            d + y, x + "." + d + "." + y + d + ".", (x + "." + d + "." + y + d).upper()]
 
 
 def domain_attrs(rng, host):
@@ -144,7 +153,9 @@ def gen_history(rng, adversarial):
                 core = d.strip(".")
                 cands = [shost, core, "www." + core, "a.b." + core, core + ".evil.org", "a." + core + ".evil.org",
                          "x" + core, core.upper(), core + ".", core.split(".", 1)[-1], "." + core]
-                host = m(rng.choice(cands[:6]) if rng.chance(0.75) else rng.choice(cands + fam))
+                emb = embeddings(core, rng.choice(["www", "a", "a.b"]), rng.choice(["not", "x", "evil.org", "my"]))
+                r = rng.random()
+                host = m(rng.choice(cands[:6]) if r < 0.55 else rng.choice(emb) if r < 0.8 else rng.choice(cands + fam))
                 port = sport if rng.chance(0.8) else rng.choice(PORTS)
                 p = cpath if cpath not in (None, "UNARY") else "/"
                 pc = [p, p + "/x", p + "x", p + "?q=1", p.rstrip("/") + "/sub/y", p + "bar", p.rstrip("/"), "/", p + "/",
@@ -186,9 +197,66 @@ def gen_systematic():
     return out
 
 
+DM_DOMS = ["example.com", "a.example.com", "co.uk", "localhost", "com", "10.1.2.3", "2.3", "ex-ample.org"]
+DM_X = ["www", "a.b", "x1", "not"]
+DM_Y = ["not", "evil.org", "x", "my.net"]
+PM_PATHS = SYS_PATHS + ["/foo/bar/", "/foo/barx", "/foo//", "/foo?", "?", "/foo/?", "/a", "/foo?/", "*"]
+
+
+def dm_hosts(d, x, y):
+    hs = [d, "." + d, d + ".", d.upper(), d.split(".", 1)[-1], "1.2.3.4", d + "\n", "::1"] + embeddings(d, x, y)
+    return hs
+
+
+def dm_domattrs(d):
+    parent = d.split(".", 1)[-1]
+    return [d, "." + d, ".." + d, d + ".", "." + d + ".", "." + d.upper(), parent, "." + parent, "", ".",
+            "." + d.split(".")[-1], d[1:], "." + d[1:]]
+
+
+def gen_dm_systematic(tier):
+    """every (host, Domain) over the label algebra, and every (request target, cookie path) pair, as direct calls
+    of the two predicates"""
+    out, seen = [], set()
+    doms = DM_DOMS if tier == "thorough" else DM_DOMS[:4]
+    xs, ys = (DM_X, DM_Y) if tier == "thorough" else (DM_X[:2], DM_Y[:2])
+    for d in doms:
+        for x in xs:
+            for y in ys:
+                for h in dm_hosts(d, x, y):
+                    for b in dm_domattrs(d):
+                        if (h, b) not in seen:
+                            seen.add((h, b))
+                            out.append({"k": "dm", "a": h, "b": b})
+    for t in PM_PATHS:
+        for cp in PM_PATHS:
+            out.append({"k": "pm", "t": hx(t.encode()), "cp": hx(cp.encode())})
+    return out
+
+
+def gen_dm_random(rng):
+    d = rng.choice(DM_DOMS)
+    h = rng.choice(dm_hosts(d, rng.choice(DM_X), rng.choice(DM_Y)))
+    b = rng.choice(dm_domattrs(d if rng.chance(0.85) else rng.choice(DM_DOMS)))
+    if rng.chance(0.5):
+        h = mutate(rng, h)
+    if rng.chance(0.5):
+        b = mutate(rng, b)
+    return {"k": "dm", "a": h, "b": b}
+
+
 def gen(rng, n, tier):
-    out = gen_systematic() if tier == "thorough" else []
-    return out + [gen_history(rng, adversarial=rng.chance(0.30)) for _ in range(n)]
+    out = gen_dm_systematic(tier) + (gen_systematic() if tier == "thorough" else [])
+    for _ in range(n):
+        r = rng.random()
+        if r < 0.12:
+            out.append(gen_dm_random(rng))
+        elif r < 0.16:
+            t, cp = rng.choice(PM_PATHS), rng.choice(PM_PATHS)
+            out.append({"k": "pm", "t": hx(mutate(rng, t).encode()), "cp": hx(mutate(rng, cp).encode())})
+        else:
+            out.append(gen_history(rng, adversarial=rng.chance(0.30)))
+    return out
 
 
 # ------------------------------------------------------------------ implementation runner
@@ -211,6 +279,11 @@ def _snapshot(sc):
 
 
 def run_impl(case):
+    if case.get("k") == "dm":
+        return {"fixed": FIXED, "r": bool(stickycookie.domain_match(case["a"], case["b"]))}
+    if case.get("k") == "pm":
+        t, cp = _u(case["t"]), _u(case["cp"])
+        return {"fixed": FIXED, "r": bool(stickycookie.path_match(t, cp) if FIXED else t.startswith(cp))}
     sc = stickycookie.StickyCookie()
     out = []
     with taddons.context(sc) as tctx:
@@ -278,6 +351,11 @@ def _jar(j):
 
 
 def coq_case(case, obs):
+    var = "Fixed" if obs["fixed"] else "Orig"
+    if case.get("k") == "dm":
+        return f"DM {var} {cbytes(case['a'].encode())} {cbytes(case['b'].encode())} {cbool(obs['r'])}"
+    if case.get("k") == "pm":
+        return f"PM {var} {_s(case['t'])} {_s(case['cp'])} {cbool(obs['r'])}"
     evs = []
     for ev, o in zip(case["events"], obs["events"]):
         host = cbytes(ev["host"].encode("utf-8", "surrogateescape"))
@@ -348,6 +426,19 @@ def _dom_family(host, dom):
 
 
 def oracle(case, obs):
+    pre = "repaired-" if obs["fixed"] else ""
+    if case.get("k") == "dm":
+        # only-if direction of RFC 6265 5.1.3 on the predicate itself
+        if obs["r"] and not rfc_domain_match(_lower(case["a"]), rfc_cookie_domain(case["b"])):
+            return [{"key": pre + "attach-" + _dom_family(case["a"], case["b"]),
+                     "what": f"stickycookie.domain_match({case['a']!r}, {case['b']!r}) is True"}]
+        return []
+    if case.get("k") == "pm":
+        t, cp = _u(case["t"]), _u(case["cp"])
+        if obs["r"] and not rfc_path_match(t.partition("?")[0], cp):
+            fam = "path-prefix-not-segment" if t.startswith(cp) else "path-other"
+            return [{"key": pre + "attach-" + fam, "what": f"request target {t!r} accepted for cookie path {cp!r}"}]
+        return []
     v = []
     jar = []  # the implementation's jar before the event (observed)
     for ev, o in zip(case["events"], obs["events"]):
@@ -456,6 +547,8 @@ def oracle(case, obs):
 
 
 def nontrivial(case, obs):
+    if case.get("k") in ("dm", "pm"):
+        return True
     jar_nonempty = False
     for ev, o in zip(case["events"], obs["events"]):
         if ev["t"] == "resp":
@@ -466,7 +559,9 @@ def nontrivial(case, obs):
 
 
 def classify(case, obs):
-    tags = ["fixed" if obs["fixed"] else "orig", "flt" if case["flt"] else "noflt"]
+    if case.get("k") in ("dm", "pm"):
+        return [case["k"], f"{case['k']}-{'accept' if obs['r'] else 'reject'}"]
+    tags = ["history", "fixed" if obs["fixed"] else "orig", "flt" if case["flt"] else "noflt"]
     jar = []
     for ev, o in zip(case["events"], obs["events"]):
         if ev["t"] == "resp":
